@@ -7,7 +7,7 @@ from harness.common import Scratch, seed
 from harness.result import Outcome
 
 
-def run_issues(prop, kind, tier, budget, cfgs=('',), provenance=False):
+def run_issues(prop, kind, tier, budget, cfgs=('',), provenance=False, extra_every_cfg=()):
     out = Outcome(prop, tier, 'model_checking')
     rng = random.Random(seed() * 13 + len(prop) + ord(prop[-1]))
     behs = _parserb.generate(out, tier, prop, envs=('broken', 'tokenv'), num=200 if tier == 'quick' else 1500)
@@ -22,6 +22,7 @@ def run_issues(prop, kind, tier, budget, cfgs=('',), provenance=False):
         tot = {'acc': 0, 'n': 0, 'nontriv': 0}
         for ci, cfg in enumerate(cfgs):
             its = items if len(cfgs) == 1 else [it for j, it in enumerate(items) if j % len(cfgs) == ci]
+            its = its + [[10 ** 6 + j, t, v, 'boundary'] for j, (t, v) in enumerate(extra_every_cfg)]
             res = pipeline.validate(its, 'harness.recorders.rec_issues',
                                     {'kind': kind, 'cfg': cfg, 'provenance': provenance}, scratch.sub('i%d' % ci),
                                     ['TokenStream', 'Issues'], 'Issues', wrap_extra={})
